@@ -81,6 +81,57 @@ CHECKS = {
             "Documented formats come from the EBB command reference/docstrings as transcribed "
             "in mc/props/c06.py; one known finding (doLowLevelMove clear=0) is listed.",
             "DESIGN.md §3 C06"),
+    "C08": ("exhaustive lattice enumeration (E3) of segment x rectangle region pairs with an "
+            "exact rational Liang-Barsky reference and a loop-budget monitor",
+            "Every segment with endpoints on an 8x8 lattice against 5 rectangles (incl. zero-"
+            "height, zero-width, point), the same lattice in tenths, shifted by 1e6 and scaled "
+            "by 1e-3: accept/reject, endpoints on the segment and in the rectangle, orientation "
+            "and coverage of the exact inside part, no exception, <= 5 loop passes.",
+            "Tolerance 1e-9 x coordinate scale; touching-only cases may go either way.",
+            "DESIGN.md §3 C08"),
+    "C09": ("exhaustive enumeration (E3) of all vertex lists up to length 5/6 over a 3x3 lattice "
+            "x tolerances with exact rational distances",
+            "Identity-preserving subsequence, kept end points, every deleted vertex strictly "
+            "closer than the tolerance to the segment of its surviving neighbours, untouched "
+            "short lists / non-positive tolerances; fast predicate vs reference measurement on "
+            "all 4/5-point tuples.",
+            "Exhaustive over the lattice only; exact distance ties are skipped and counted.",
+            "DESIGN.md §3 C09"),
+    "C10": ("exhaustive enumeration (E3) of lattice Bezier node lists with a per-split transition "
+            "monitor (every intermediate node list is a checked state)",
+            "All 6561 one-piece curves (and two-piece lists) over the lattice x flatness values; "
+            "each split must replace exactly one piece by its exact de Casteljau halves, original "
+            "nodes survive by identity, the final pieces tile the original dyadically and are "
+            "flat; split budget 4096.",
+            "Lattice coordinates make every midpoint an exact dyadic float.",
+            "DESIGN.md §3 C10"),
+    "C11": ("exhaustive lattice enumeration (E3) of viewBox x page x preserveAspectRatio against "
+            "the SVG 1.1 rule in exact rationals, compared through the mapping",
+            "Full product of viewBox geometry, document sizes, none + 9 alignments, meet/slice/"
+            "absent, defer, spelling and separator variants; invalid inputs must give identity.",
+            "Python-only numerals (nan, inf, 1_0) and unknown keywords are outside the quantifier.",
+            "DESIGN.md §3 C11"),
+    "C12": ("exhaustive enumeration (E3) of all strings up to length 5/6 over a numeral alphabet x "
+            "unit suffixes x whitespace against an exact factor table",
+            "Every numeral x unit is pushed through the parser, both converters, the round trip "
+            "and both attribute readers and cross-checked; every non-numeral or unsupported "
+            "suffix must yield None without raising.",
+            "96 px/in factor table from SVG/CSS; infinite/nan literals outside the quantifier.",
+            "DESIGN.md §3 C12"),
+    "C13": ("explicit-state search (E2) over removal histories of the real grid index x exhaustive "
+            "geometry lattice (E3), brute-force reference",
+            "All 1- and 2-path sets over the 3x3 lattice (3-path sets over a sub-lattice) x bins "
+            "per side x reverse; every removal order is executed, states reached by different "
+            "orders are compared field by field, and in every state nearest() is queried on a "
+            "lattice of points inside, on and outside the grid.",
+            "Zero-extent sets excluded (precondition); distance ties accepted.",
+            "DESIGN.md §3 C13"),
+    "C14": ("exhaustive enumeration (E3) of box multisets x query boxes against brute force",
+            "All multisets of up to 4 (thorough 5) boxes over a 3-value coordinate alphabet (36 "
+            "boxes, half of them degenerate) x all 36 queries, smaller multisets over 4 values, "
+            "all 4096 subsets of a deep 12-box arrangement; construction depth/time budget.",
+            "Exhaustive over the alphabets only.",
+            "DESIGN.md §3 C14"),
     "C15": ("exhaustive enumeration of version/threshold pairs (E3) plus deviation-bounded "
             "exploration of connect() handshake histories (E1/E2) with stubbed enumerator/port",
             "512x512 version pairs through both layers' min_version; connect() histories "
@@ -109,6 +160,27 @@ CHECKS = {
             "Trusts the LegacyBoard reply model (OK / data+OK / no-OK set from the EBB command "
             "reference) and that pyserial faults surface as the injected exception classes.",
             "DESIGN.md §3 C07"),
+    "C18": ("exhaustive lattice enumeration (E3) over dyadic values, bounds and tolerances with "
+            "exact rational oracle",
+            "All ranges x values (incl. bound +- tolerance and one quantum beyond) x tolerances, "
+            "as floats, ints and mixed, for the three scalar helpers; all lattice points x 100 "
+            "rectangles for the 2-D test and its agreement with the tolerant checker.",
+            "Dyadic alphabet keeps bound +- tolerance exact.",
+            "DESIGN.md §3 C18"),
+    "C19": ("exhaustive enumeration (E3) of ordered port lists x derived lookup names through "
+            "both layers with a stubbed enumerator",
+            "All ordered lists of 0..3 (thorough 4) ports over 10 descriptor kinds; first-board "
+            "discovery, listings, reported names and every lookup derived from the list (names, "
+            "serial tags, port names in three casings) in both layers, plus a failing enumerator.",
+            "Descriptor strings modelled on pyserial 3 output.",
+            "DESIGN.md §3 C19"),
+    "C20": ("exhaustive enumeration (E3) of token sequences (lxml round trip) and of every "
+            "millisecond across the minute/hour rollovers with an exact oracle",
+            "All token sequences up to length 4 (thorough 5) over specials, entities and text; "
+            "every integer millisecond 0..3.7e6 in both units, the three floats around every "
+            "half-second boundary to 1e5 (1e6) s.",
+            "TAB/CR/LF in attributes outside the quantifier; exact .5 ties accept both.",
+            "DESIGN.md §3 C20"),
 }
 
 PENDING = "check not built yet in this revision (planned, see DESIGN.md §3); not claimed"
